@@ -11,6 +11,7 @@ import (
 	"sync"
 	"time"
 
+	vexec "vp/exec"
 	"vp/run"
 	"vp/sym"
 )
@@ -29,6 +30,7 @@ type Spec struct {
 	Witnesses   map[string]run.Instance // known-finding id -> instance whose assertion reproduces it
 	Extra       func(w *run.World, ev *Evidence) error // non-solver side facts (SSA scans), recorded in evidence
 	Workers     int
+	SliderSummary bool // replace slider lookups by the ray-walk spec, licensed per square by re-proving the C12 lemma first
 }
 
 type KnownFinding struct {
@@ -155,6 +157,36 @@ func Run(prop, tier string, seed int64, repoDir, verifDir string, verbose bool) 
 	nw := spec.Workers
 	if nw <= 0 {
 		nw = 16
+	}
+	// slider summaries: re-prove lookup == ray walk for every square first; unproved squares keep the exact encoding
+	var lemmaNote string
+	if spec.SliderSummary {
+		lic, note, err := proveSliderLemmas(w, nw)
+		if err != nil {
+			fmt.Println("BROKEN slider lemma run:", err)
+			return 2
+		}
+		lemmaNote = note
+		rook := w.Func("attacks", "RookMoves")
+		bishop := w.Func("attacks", "BishopMoves")
+		for i := range insts {
+			prev := insts[i].Opt.Setup
+			insts[i].Opt.Setup = func(x *vexec.Exec, w *run.World) {
+				x.InstallSliderSummary(rook, bishop, func(kind string, sq int) bool { return lic[kind][sq] })
+				if prev != nil {
+					prev(x, w)
+				}
+			}
+		}
+		for i := range wits {
+			prev := wits[i].inst.Opt.Setup
+			wits[i].inst.Opt.Setup = func(x *vexec.Exec, w *run.World) {
+				x.InstallSliderSummary(rook, bishop, func(kind string, sq int) bool { return lic[kind][sq] })
+				if prev != nil {
+					prev(x, w)
+				}
+			}
+		}
 	}
 	all := append([]run.Instance(nil), insts...)
 	for _, wi := range wits {
@@ -389,6 +421,9 @@ func Run(prop, tier string, seed int64, repoDir, verifDir string, verbose bool) 
 		}
 	}
 	ev.Coverage["known_findings_file_entries"] = kf
+	if lemmaNote != "" {
+		ev.Coverage["slider_summary_lemmas"] = lemmaNote
+	}
 	ev.WallS = time.Since(t0).Seconds()
 	for _, l := range lines {
 		fmt.Println(l)
@@ -428,4 +463,57 @@ func printInst(r *run.InstResult) {
 		}
 	}
 	fmt.Printf("  %-50s obs=%d exec=%.0fms solver=%.0fms terms=%d defs=%d %s\n", r.Inst.Name(), n, r.ExecMs, r.SolverMs, r.Terms, r.Defs, strings.Join(bad, " "))
+}
+
+// proveSliderLemmas decides, for every square and slider kind, forall occ. magic lookup == ray walk (the C12 slider
+// obligations) on the current tree. Only squares whose lemma is proved may be summarised.
+func proveSliderLemmas(w *run.World, nw int) (map[string]map[int]bool, string, error) {
+	if w.Func("attacks", "VpH_C12_rook") == nil {
+		return nil, "", fmt.Errorf("attacks harness not loaded (add \"attacks\" to Pkgs)")
+	}
+	lic := map[string]map[int]bool{"rook": {}, "bishop": {}}
+	type job struct {
+		kind string
+		sq   int
+	}
+	jobs := make(chan job)
+	var mu sync.Mutex
+	var wg sync.WaitGroup
+	t0 := time.Now()
+	for k := 0; k < nw; k++ {
+		wg.Add(1)
+		go func() {
+			defer wg.Done()
+			pl := sym.NewPool([]string{"z3-new", "z3"}, 30000)
+			defer pl.Close()
+			for j := range jobs {
+				r := w.RunInstance(run.Instance{Prop: "C12-lemma", Pkg: "attacks", Func: "VpH_C12_" + j.kind, Params: map[string]int64{"sq": int64(j.sq)},
+					Opt: run.Options{NoVacuity: true, PanicMode: "ignore"}}, pl)
+				ok := r.Err == nil
+				for _, o := range r.Obs {
+					if o.Kind == "assert" && o.Verdict != "unsat" {
+						ok = false
+					}
+				}
+				mu.Lock()
+				lic[j.kind][j.sq] = ok
+				mu.Unlock()
+			}
+		}()
+	}
+	for sq := 0; sq < 64; sq++ {
+		jobs <- job{"rook", sq}
+		jobs <- job{"bishop", sq}
+	}
+	close(jobs)
+	wg.Wait()
+	n := 0
+	for _, m := range lic {
+		for _, ok := range m {
+			if ok {
+				n++
+			}
+		}
+	}
+	return lic, fmt.Sprintf("%d/128 per-square lemmas (forall occ: magic lookup == ray walk) proved on this run in %.1fs; unproved squares use the exact table encoding", n, time.Since(t0).Seconds()), nil
 }
